@@ -44,6 +44,34 @@ func mapSegs(ss []g.Seg, f func(C2) C2) []g.Seg {
 	return res
 }
 
+// ownSolid2: see ownSolid3.
+type ownSolid2 struct{ refs []g.RefShape2 }
+
+func (o ownSolid2) Min() C2 {
+	mn, _ := o.refs[0].Bounds()
+	for _, r := range o.refs[1:] {
+		lo, _ := r.Bounds()
+		mn = g.V2(math.Min(mn.X, lo.X), math.Min(mn.Y, lo.Y))
+	}
+	return g.Sub2(mn, g.V2(1e-6, 1e-6))
+}
+func (o ownSolid2) Max() C2 {
+	_, mx := o.refs[0].Bounds()
+	for _, r := range o.refs[1:] {
+		_, hi := r.Bounds()
+		mx = g.V2(math.Max(mx.X, hi.X), math.Max(mx.Y, hi.Y))
+	}
+	return g.Add2(mx, g.V2(1e-6, 1e-6))
+}
+func (o ownSolid2) Contains(p C2) bool {
+	for _, r := range o.refs {
+		if r.Eval(p).SD >= 0 {
+			return true
+		}
+	}
+	return false
+}
+
 type meshCase2 struct {
 	kind   string
 	segs   []g.Seg
@@ -78,7 +106,7 @@ func genMesh2(rng *rand.Rand, thorough bool) meshCase2 {
 		w, h := float64(1+rng.Intn(4)), float64(1+rng.Intn(4))
 		mc.kind, mc.segs = "exact-rect", []g.Seg{{g.V2(0, 0), g.V2(0, h)}, {g.V2(0, h), g.V2(w, h)}, {g.V2(w, h), g.V2(w, 0)}, {g.V2(w, 0), g.V2(0, 0)}}
 	case 4: // library marching squares (input only)
-		var solid model2d.Solid = model2d.JoinedSolid{&model2d.Circle{Radius: 0.7 + 0.3*rng.Float64()}, &model2d.Circle{Center: g.V2(0.9, 0.2), Radius: 0.5}}
+		solid := ownSolid2{refs: []g.RefShape2{g.RefCircle{R: 0.7 + 0.3*rng.Float64()}, g.RefCircle{C: g.V2(0.9, 0.2), R: 0.5}}}
 		delta := 0.05 + 0.1*rng.Float64()
 		mc.kind, mc.segs = "marching-squares", vlib.Segs(model2d.MarchingSquaresSearch(solid, delta, 4))
 	case 5: // segment soup
@@ -421,14 +449,31 @@ func profiles(r *vlib.Run) {
 		ref := g.RefProfile{Base: base.ref, MinZ: minZ, MaxZ: maxZ}
 		params := ref.Describe()
 		c.Count("Profile.of."+base.tag, 1)
-		s := &subject3{api: "model3d.ProfileSDF", tag: "ProfileSDF", sdf: model3d.ProfileSDF(base.sdf, minZ, maxZ), ref: ref, params: params}
+		// a defect of the 2D outline itself is reported under the outline's keys only
+		okSDF := baseAgrees2(base)
+		baseOK := func(p C3) bool {
+			q := g.V2(p.X, p.Y)
+			if !okSDF(q) {
+				return false
+			}
+			if base.point != nil {
+				bp, _ := base.point.PointSDF(q)
+				e := base.ref.Eval(q)
+				tol := relTol*math.Abs(e.SD) + absTolK*(base.scale+g.MaxAbs2(q))
+				if !fin2(bp) || math.Abs(base.ref.Eval(bp).SD) > tol || math.Abs(g.Dist2(q, bp)-math.Abs(e.SD)) > tol {
+					return false
+				}
+			}
+			return true
+		}
+		s := &subject3{api: "model3d.ProfileSDF", tag: "ProfileSDF", sdf: model3d.ProfileSDF(base.sdf, minZ, maxZ), ref: ref, params: params, baseOK: baseOK}
 		if polyMesh {
 			s.quiet = true // piece ids are segment indices
 		}
 		runSubject3(c, s, 16)
 		if base.point != nil {
 			lib := model3d.ProfilePointSDF(base.point, minZ, maxZ)
-			s2 := &subject3{api: "model3d.ProfilePointSDF", tag: "ProfilePointSDF", sdf: lib, point: lib, ref: ref, params: params, quiet: polyMesh}
+			s2 := &subject3{api: "model3d.ProfilePointSDF", tag: "ProfilePointSDF", sdf: lib, point: lib, ref: ref, params: params, quiet: polyMesh, baseOK: baseOK}
 			runSubject3(c, s2, 16)
 		}
 	})
